@@ -26,6 +26,7 @@ def pCurEv : P Cursor.Ev := do
   | "deliver" => do let n ← nat; pure (.deliver n)
   | "workersdone" => pure .workersDone
   | "cancel" => pure .cancelCaller
+  | "propagate" => pure .propagate
   | "enter" => pure .nextEnter
   | "row" => pure .nextRow
   | "batch" => pure .nextBatch
